@@ -246,6 +246,35 @@ def oracle_copy_assign(ctx, c, im):
     ctx.case_done(("copy", c.cid), any(v != 0 for v in im["s.data"]) and im["s.data"] != [Fraction(v) for v in c.data2])
 
 
+WRITER_VIEWS = (("w00", "m00", "getMoment(0,0)", "mean position"), ("w10", "m10", "getMoment(1,0)", "mean energy"),
+                ("w01", "m01", "getMoment(0,1)", "position variance"), ("w11", "m11", "getMoment(1,1)", "energy variance"),
+                ("wr0", "rms0", "getBunchLength()", "bunch length"), ("wr1", "rms1", "getEnergySpread()", "energy spread"),
+                ("wpx", "px", "getProjection(0)", "bunch profile"), ("wpy", "py", "getProjection(1)", "energy profile"))
+
+
+def oracle_writer_views(ctx, c, im):
+    """'moments ... depend on no other bunch's data', read through EVERY accessor form the code base uses: the results-file
+    writer (HDF5File::append) does not index the accessor's return value, it takes `.origin()` and hands nb (nb*n) contiguous
+    values to the file layer.  What it finds there for bunch b must be bunch b's value (bit for bit what the indexed accessor
+    reports, which the model/oracles above judge)."""
+    n, nb = c.n, c.nb
+    for st in ("s", "cv", "tv"):
+        for wt, mt, acc, name in WRITER_VIEWS:
+            x, y = im.get("%s.%s" % (st, wt)), im["%s.%s" % (st, mt)]
+            if x is None:
+                continue
+            if x != y:
+                k = next(i for i in range(len(y)) if i >= len(x) or x[i] != y[i])
+                w = n if wt in ("wpx", "wpy") else 1
+                ctx.violation("impl-oracle", "what the results-file writer takes for the %s of bunch %d (%s.origin()[%d], as HDF5File::append reads it) is not "
+                              "that bunch's value %s%s" % (name, k // w, acc, k, "%s[%d]" % (acc, k // w) if w == 1 else "%s[%d][%d]" % (acc, k // w, k % w),
+                                                           ": with %d bunches the memory behind origin() is not the contiguous per-bunch list" % nb if nb > 1 else ""),
+                              case=c.replay(), observed=dict(state=st, raw=[str(v) for v in x[:6]], indexed=[str(v) for v in y[:6]]),
+                              sig=sig(c, "writer-view", quantity=mt))
+                return
+    ctx.count("oracle:writer-raw-views")
+
+
 def oracle_gauss(ctx, c, im):
     """explored, not proved: a single Gaussian well inside the grid (mean +- 5 sigma inside, sigma >= 2 cells)
     reports its mean and width.  Tolerance: rectangle/Simpson discretisation 4*exp(-pi^2 sigma^2/(2 delta^2))
@@ -378,6 +407,7 @@ def evaluate(ctx, cases, res, dis):
         if c.kind != "signed":
             oracle_moment_formula(ctx, c, im)
         oracle_copy_assign(ctx, c, im)
+        oracle_writer_views(ctx, c, im)
         oracle_gauss(ctx, c, im)
 
 
